@@ -261,6 +261,9 @@ struct Case {
     dcap: u8,
     univ: u8,
     ops: Vec<[u8; 3]>,
+    /// decodes of truncated input (they fail) that precede the round trips of this case: a
+    /// failed decode must leave nothing behind that a later, valid decode can trip over
+    rejects: u8,
 }
 
 impl Case {
@@ -271,6 +274,7 @@ impl Case {
         let _ = writeln!(s, "cap {}", self.cap);
         let _ = writeln!(s, "dcap {}", self.dcap);
         let _ = writeln!(s, "univ {}", self.univ);
+        let _ = writeln!(s, "rejects {}", self.rejects);
         for o in &self.ops {
             let _ = writeln!(s, "op {} {} {}", o[0], o[1], o[2]);
         }
@@ -280,7 +284,7 @@ impl Case {
         s
     }
     fn from_text(t: &str) -> Option<Case> {
-        let mut c = Case { is_set: false, cap: 0, dcap: 0, univ: 1, ops: vec![] };
+        let mut c = Case { is_set: false, cap: 0, dcap: 0, univ: 1, ops: vec![], rejects: 0 };
         for line in t.lines() {
             let line = line.trim();
             if line.is_empty() || line.starts_with('#') {
@@ -293,6 +297,7 @@ impl Case {
                 "cap" => c.cap = p.get(1)?.parse().ok()?,
                 "dcap" => c.dcap = p.get(1)?.parse().ok()?,
                 "univ" => c.univ = p.get(1)?.parse().ok()?,
+                "rejects" => c.rejects = p.get(1)?.parse().ok()?,
                 "op" => c.ops.push([p.get(1)?.parse().ok()?, p.get(2)?.parse().ok()?, p.get(3)?.parse().ok()?]),
                 _ => return None,
             }
@@ -309,6 +314,7 @@ impl Case {
         f(self.cap);
         f(self.dcap);
         f(self.univ);
+        f(self.rejects);
         for o in &self.ops {
             for b in o {
                 f(*b);
@@ -328,6 +334,7 @@ struct Stats {
     value_roundtrips: u64,
     token_roundtrips: u64,
     in_place: u64,
+    rejected_decodes: u64,
     checks: u64,
     c05_streams: u64,
     c05_with_repeats: u64,
@@ -423,6 +430,23 @@ fn run_map<const N: usize, const M: usize>(case: &Case) -> Out {
     if len > M {
         out.st.target_too_small += 1;
         return out;
+    }
+    // (1b) decodes that fail (truncated bincode input, a token stream that ends early) before the
+    // valid ones: whatever they return, the round trips below must not notice them
+    if case.rejects > 0 {
+        let mut buf = [0u8; 512];
+        let cfg = bincode::config::legacy();
+        if let Ok(Ok(n)) = silent(|| bincode::serde::encode_into_slice(&m, &mut buf, cfg)) {
+            for i in 0..case.rejects as usize {
+                let cut = (n - 1).saturating_sub(i % 4);
+                let _ = silent(|| bincode::serde::decode_from_slice::<Map<u8, u32, M>, _>(&buf[..cut], cfg).map(|_| ()));
+                if i % 3 == 0 && toks.len() >= 2 {
+                    let mut de = TokDe::new(&toks[..toks.len() - 1], i % 2 == 0);
+                    let _ = silent(|| Map::<u8, u32, M>::deserialize(&mut de).map(|_| ()));
+                }
+                out.st.rejected_decodes += 1;
+            }
+        }
     }
     // (2) emitted entries -> value deserializer -> Map<_,_,M>
     let mut pairs: Vec<(u8, u32)> = Vec::new();
@@ -578,6 +602,21 @@ fn run_set<const N: usize, const M: usize>(case: &Case) -> Out {
     if len > M {
         out.st.target_too_small += 1;
         return out;
+    }
+    if case.rejects > 0 {
+        let mut buf = [0u8; 512];
+        let cfg = bincode::config::legacy();
+        if let Ok(Ok(n)) = silent(|| bincode::serde::encode_into_slice(&s, &mut buf, cfg)) {
+            for i in 0..case.rejects as usize {
+                let cut = (n - 1).saturating_sub(i % 4);
+                let _ = silent(|| bincode::serde::decode_from_slice::<Set<u16, M>, _>(&buf[..cut], cfg).map(|_| ()));
+                if i % 3 == 0 && toks.len() >= 2 {
+                    let mut de = TokDe::new(&toks[..toks.len() - 1], i % 2 == 0);
+                    let _ = silent(|| Set::<u16, M>::deserialize(&mut de).map(|_| ()));
+                }
+                out.st.rejected_decodes += 1;
+            }
+        }
     }
     let elems: Vec<u16> = toks.iter().filter_map(|t| if let Tok::U16(k) = t { Some(*k) } else { None }).collect();
     let r = silent(|| Set::<u16, M>::deserialize(SeqDeserializer::<_, VErr>::new(elems.clone().into_iter())));
@@ -875,7 +914,7 @@ fn main() {
                 sc.spawn(move || {
                     let cfg = Config { cases, failure_persistence: None, rng_seed: RngSeed::Fixed(mix(mix(seed, if c05 { 505 } else { 2020 }), wk as u64)), max_shrink_iters: 20000, ..Config::default() };
                     let mut runner = TestRunner::new(cfg);
-                    let strat = (any::<bool>(), 0u8..6, 0u8..7, 0u8..4, proptest::collection::vec(any::<[u8; 3]>(), 0..=24)).prop_map(|(is_set, cap, dcap, us, ops)| {
+                    let strat = (any::<bool>(), 0u8..6, 0u8..7, 0u8..4, proptest::collection::vec(any::<[u8; 3]>(), 0..=24), 0u8..96).prop_map(|(is_set, cap, dcap, us, ops, rj)| {
                         let n = SRC_CAPS[cap as usize];
                         let univ = match us {
                             0 => n.saturating_sub(1),
@@ -884,7 +923,7 @@ fn main() {
                             _ => n + 3,
                         }
                         .max(1) as u8;
-                        Case { is_set, cap, dcap, univ, ops }
+                        Case { is_set, cap, dcap, univ, ops, rejects: rj.saturating_sub(47) }
                     });
                     let evals = std::cell::Cell::new(0u64);
                     let nt = std::cell::RefCell::new(HashSet::new());
@@ -904,6 +943,7 @@ fn main() {
                             s.value_roundtrips += out.st.value_roundtrips;
                             s.token_roundtrips += out.st.token_roundtrips;
                             s.in_place += out.st.in_place;
+                            s.rejected_decodes += out.st.rejected_decodes;
                             s.c05_streams += out.st.c05_streams;
                             s.c05_with_repeats += out.st.c05_with_repeats;
                             s.c05_skipped_overflow += out.st.c05_skipped_overflow;
@@ -949,6 +989,7 @@ fn main() {
         st.value_roundtrips += s.value_roundtrips;
         st.token_roundtrips += s.token_roundtrips;
         st.in_place += s.in_place;
+        st.rejected_decodes += s.rejected_decodes;
         st.c05_streams += s.c05_streams;
         st.c05_with_repeats += s.c05_with_repeats;
         st.c05_skipped_overflow += s.c05_skipped_overflow;
@@ -986,7 +1027,27 @@ fn main() {
         let mut comments = vec![format!("violation: {v}")];
         comments.extend(out.trace);
         let _ = std::fs::write(&p, c.to_text(&comments));
-        replay = Some(p);
+        // a violation that depends on what this process did before (state kept by the library
+        // across calls) does not show when the shrunk case runs alone: then the failing decodes
+        // that precede the round trips are made part of the case itself
+        let fresh = |path: &PathBuf| std::env::current_exe().ok().and_then(|exe| std::process::Command::new(exe).arg(pname).arg("--replay").arg(path).stdout(std::process::Stdio::null()).status().ok()).and_then(|s| s.code());
+        if fresh(&p) == Some(0) {
+            let mut c2 = c.clone();
+            c2.rejects = 48;
+            let p2 = dir.join(format!("{pname}-serde-{:016x}.case", c2.hash64()));
+            let _ = std::fs::write(&p2, c2.to_text(&comments));
+            if fresh(&p2) == Some(1) {
+                let _ = std::fs::remove_file(&p);
+                replay = Some(p2);
+            } else {
+                let _ = std::fs::remove_file(&p2);
+                comments.push("did not reproduce when run alone in a fresh process: the violation depends on state the library accumulated over the earlier cases of the campaign".into());
+                let _ = std::fs::write(&p, c.to_text(&comments));
+                replay = Some(p);
+            }
+        } else {
+            replay = Some(p);
+        }
     }
     let sample_j: Vec<J> = samples
         .iter()
@@ -1033,6 +1094,7 @@ fn main() {
                 ("bincode_roundtrips".into(), J::N(st.bincode_roundtrips as f64)),
                 ("token_stream_roundtrips_with_and_without_size_hints".into(), J::N(st.token_roundtrips as f64)),
                 ("deserialize_in_place_into_nonempty_targets".into(), J::N(st.in_place as f64)),
+                ("failing_decodes_of_truncated_input_before_the_round_trips".into(), J::N(st.rejected_decodes as f64)),
                 ("profile".into(), J::S(if cfg!(debug_assertions) { "dev (debug assertions on)".into() } else { "release (debug assertions off)".to_string() })),
                 ("cases_with_swap_removal".into(), J::N(st.swap_removals as f64)),
                 ("cases_len_ge2".into(), J::N(st.len_ge2 as f64)),
